@@ -62,7 +62,12 @@ Definition eff_budget (r : run) : nat :=
               end
   end.
 
-Record case := { c_tree : tnode; c_runs : list run }.
+(* c_runs: renders of c_tree (a freshly built tree object), one per budget.
+   c_seq: a multi-step sequence on ONE tree object — renders interleaved with Merge / Insert calls on that same
+   object; each entry is the tree as dumped immediately before the render, and what the render returned.  (A
+   render must depend on nothing but the tree as it is at that moment and the budget: state carried on the tree
+   object between calls, e.g. a remembered threshold, shows up here and only here.) *)
+Record case := { c_tree : tnode; c_runs : list run; c_seq : list (tnode * run) }.
 
 (* ---------------- specification side (independent of the model) ---------------- *)
 
@@ -192,4 +197,4 @@ Definition check_run (t : tnode) (r : run) : list verdict :=
   end.
 
 Definition check_case (c : case) : verdict :=
-  combine_verdicts (flat_map (check_run (c_tree c)) (c_runs c)).
+  combine_verdicts (flat_map (check_run (c_tree c)) (c_runs c) ++ flat_map (fun tr => check_run (fst tr) (snd tr)) (c_seq c)).
